@@ -294,6 +294,24 @@ def explore_parallel(
     """
     workers = workers or min(16, os.cpu_count() or 1)
     h = factory(*fargs)
+    # self-check before any verdict is believed: the default execution of this harness, run twice, must give identical observations
+    obs = []
+    for _ in range(2):
+        w0 = h.fresh()
+        try:
+            steps = 0
+            while steps < min(depth, 6):
+                en0 = h.enabled(w0)
+                cand = next((x for x in en0 if h.cost(x) == 0), None)
+                if cand is None or h.verdict(w0):
+                    break
+                h.apply(w0, cand)
+                steps += 1
+            obs.append(json.dumps(h.observe(w0), sort_keys=True, default=str))
+        finally:
+            h.close(w0)
+    if obs[0] != obs[1]:
+        raise HarnessError("determinism self-check failed: the same schedule executed twice gave different observations")
     # enumerate all label sequences of length split_depth (within the bound) in the parent
     top = Explorer(h, depth=split_depth, bound=bound, max_violations=max_violations)
     jobs: list[list[Any]] = []
